@@ -4,6 +4,7 @@ package broker
 import (
 	"net"
 	"sync"
+	"sync/atomic"
 	"time"
 
 	"github.com/256dpi/gomqtt/transport"
@@ -29,8 +30,9 @@ type Engine struct {
 	// received the server should be restarted.
 	OnError func(error)
 
-	mutex sync.Mutex
-	tomb  tomb.Tomb
+	mutex     sync.Mutex
+	tomb      tomb.Tomb
+	accepting uint32
 }
 
 // NewEngine returns a new Engine.
@@ -45,6 +47,9 @@ func NewEngine(backend Backend) *Engine {
 
 // Accept begins accepting connections from the passed server.
 func (e *Engine) Accept(server transport.Server) {
+	// remember that there is an acceptor to wait for
+	atomic.StoreUint32(&e.accepting, 1)
+
 	e.tomb.Go(func() error {
 		for {
 			// return if dying
@@ -113,9 +118,12 @@ func (e *Engine) Close() {
 	e.mutex.Lock()
 	defer e.mutex.Unlock()
 
-	// stop acceptors
+	// stop acceptors (if none has ever been started there is nothing to wait
+	// for, waiting would then block forever)
 	e.tomb.Kill(nil)
-	_ = e.tomb.Wait()
+	if atomic.LoadUint32(&e.accepting) == 1 {
+		_ = e.tomb.Wait()
+	}
 }
 
 // Run runs the passed engine on a random available port and returns a channel
